@@ -20,7 +20,7 @@ Sites of grammar.y (every call of `parseInt`, `parseFloat`, `tryParseFloat32`,
                                                                                → `srcSiteAction` (= `Martian.Lexer.srcAction` after `unquoteBytes`)
 * `arr_list` the `int16` dimension counter with the `1<<15 - 1` guard          → `arrStep`, `arrList`
 * `type_id: MAP '<' nonmap_type arr_list '>' arr_list`  `MapDim: 1 + $4` (`int16` addition, no guard)
-                                                                               → `mapDim` (wraps, never panics)
+                                                                               → `mapDim` (guarded; `mapDimUnguarded` = before the repair)
 * `id_list: id`  `$1[:len($1):len($1)]`  — a full slice expression with
   `len ≤ cap`: can not panic; the identity on the text                         → `idSliceAction`
 * `split_bind_stm` `$4.(MapCallSource)` on a `nonempty_collection_exp` (a
@@ -228,10 +228,15 @@ def arrListUnguarded : Nat → Action Int
     | .error => .error
     | .panic => .panic
 
-/-- `type_id: MAP '<' nonmap_type arr_list '>' arr_list`: `MapDim: 1 + $4`, an
-`int16` addition WITHOUT a guard — wraps to −32768 for 32767 inner dimensions,
-does not panic -/
-def mapDim (inner : Int) : Int := wrap16 (1 + inner)
+/-- `type_id: MAP '<' nonmap_type arr_list '>' arr_list` as it WAS: `MapDim:
+1 + $4`, an `int16` addition without a guard — wrapped to −32768 for 32767
+inner dimensions (did not panic) -/
+def mapDimUnguarded (inner : Int) : Int := wrap16 (1 + inner)
+
+/-- … as it is since the repair: `if $4 == 1<<15 - 1 { fail(…"too many array
+dimensions"); return 1 }`, then `MapDim: 1 + $4` -/
+def mapDim (inner : Int) : Action Int :=
+  if inner == maxDim then .error else .ok (wrap16 (1 + inner))
 
 /-- `id_list: id { $$ = $1[:len($1):len($1)] }` -/
 def idSliceAction (t : Bytes) : Action Bytes := .ok (t.take t.length)
